@@ -153,6 +153,18 @@ pub fn gen_c01(out: &mut dyn Write, thorough: bool, seed: u64) {
             writeln!(out, "H {CFG} {mt}^00 {pre},pred:0,obs:SB,spec:0 c01").unwrap();
         }
     }
+    // long texts (hundreds of characters): buffer growth, positions beyond 255, many matches
+    let lopts = GenOpts { windows: &[1, 2, 3, 4, 9], max_ngrams: 6, max_words: 3, max_word_len: 6 };
+    for i in 0..(if thorough { 40 } else { 4 }) {
+        let (m, alpha) = gen_model(&mut r, &lopts);
+        let len = if thorough { [130, 255, 256, 257, 300, 520, 700, 330][i % 8] } else { [130, 255, 256, 257][i % 4] };
+        let mut text = String::new();
+        while text.chars().count() < len {
+            text.push_str(&gen_text(&mut r, &m, &alpha, 24));
+        }
+        let text: String = text.chars().take(len).collect();
+        writeln!(out, "H {CFG} {}^00 Fraw:{},pred:0,obs:SB,spec:0 c01", m.to_text(), hexs(&text)).unwrap();
+    }
 }
 
 /// a second model over the same alphabet with fewer patterns and other weights (every other n-gram of `m`, signs flipped)
@@ -201,6 +213,14 @@ pub fn gen_c06(out: &mut dyn Write, thorough: bool, seed: u64) {
                 }
             }
             writeln!(out, "H {CFG} {mt}^1{store} {ops},fill,obs:BKGIC,tspec:0 c06").unwrap();
+        }
+        // a long text (positions beyond 255, many tokens)
+        if r.chance(1, 60) {
+            let mut text = String::new();
+            while text.chars().count() < 270 {
+                text.push_str(&gen_text_tags(&mut r, &m, &alpha, 14));
+            }
+            writeln!(out, "H {CFG} {mt}^1{store} Fraw:{},pred:0,fill,obs:BKGIC,tspec:0 c06", hexs(&text)).unwrap();
         }
         // the same text predicted first by another tag-predicting model over the same alphabet (more / fewer patterns):
         // the tags must be those of the model that predicted last
